@@ -2,6 +2,8 @@ import Gv.Oracle.Common
 import Gv.Model.Cli
 import Gv.Gen.Tables
 import Gv.Spec.Rand
+import Gv.Oracle.CliDefaults
+import Gv.Model.Fmt.Phylip
 /-!
 Oracle handlers of property C11.
 
@@ -12,7 +14,13 @@ Oracle handlers of property C11.
   alone, one after the other (stdout and every file written).
 * `cli_seeded <stdin> <argv…>`: the bytes a seeded command must print, from the C10 programs run on the
   Go generator replica seeded as `cmd/root.go` seeds it — ties the `--seed` handling, the order of the
-  draws in the command loops and the FASTA writer to the model.
+  draws in the command loops and the FASTA writer to the model.  Five commands with a fixed argument
+  layout (shuffle seqs, sample seqs, sample sites ×2, mutate snvs) and, with flags in any order and
+  defaults read from the flag registrations (`seededFlags`): shuffle sites / swap / recomb / rogue,
+  mutate gaps.
+* `cli_libf <stdin> <files> sample rarefy …` / `… build seqboot …` (`seededFiles`): the same for the two
+  seeded commands that need a side file (counts) or write files only (replicates); every other
+  `cli_libf` case is left to the handlers of the other properties.
 -/
 namespace Gv.Oracle.DetOps
 open Gv Gv.Oracle Gv.Model Gv.Model.Cli
@@ -39,6 +47,166 @@ def parseDec (s : String) : Option Float :=
   | [a, b] => do
     let x ← (a ++ b).toNat?
     if b.all Char.isDigit then pure (Float.ofScientific x true b.length) else none
+  | _ => none
+
+/-- signed decimal literal -/
+def parseSDec (s : String) : Option Float :=
+  match s.toList with
+  | '-' :: t => (parseDec (String.ofList t)).map fun x => -x
+  | _ => parseDec s
+
+/-- the flags of a seeded command: `--flag value` pairs and switches (`--flag`, value `true`), short names
+replaced through `alias`; `none` when a flag is not one of `known` or a value is missing -/
+def parseOpts (alias : List (String × String)) (switches known : List String) : List String → Option (List (String × String))
+  | [] => some []
+  | a :: rest =>
+    let a := ((alias.find? (·.1 == a)).map (·.2)).getD a
+    if !known.contains a then none
+    else if switches.contains a then (parseOpts alias switches known rest).map fun l => (a, "true") :: l
+    else match rest with
+      | [] => none
+      | v :: rest' => (parseOpts alias switches known rest').map fun l => (a, v) :: l
+
+/-- value of `--flag`: the last occurrence on the command line, else the default registered in `cmd/*.go` -/
+def optOr (opts : List (String × String)) (cmd flag : String) : Option String :=
+  match opts.reverse.find? (·.1 == "--" ++ flag) with
+  | some v => some v.2
+  | none => CliDefaults.effective cmd flag
+
+def seedOf (opts : List (String × String)) : Option Int :=
+  (opts.reverse.find? (·.1 == "--seed")).bind fun v => parseInt? v.2
+
+def nameLines (l : List String) : String := String.join (l.map fun n => n ++ "|")
+
+/-- where a list of names goes: appended to stdout, dropped (`none` = /dev/null); any other file is not modelled -/
+def namesTo (file : String) (l : List String) : Option String :=
+  if file == "stdout" || file == "-" then some (nameLines l) else if file == "none" then some "" else none
+
+/-- the seeded commands given as `cmd sub <flags…>` (flags in any order, defaults from the flag registrations) -/
+def seededFlags (rows : Rows) (argv : List String) : Option String :=
+  let n := rows.length
+  let L : Nat := Spec.width rows
+  match argv with
+  | "shuffle" :: "sites" :: fl => do
+    -- cmd/sites.go: per alignment `ShuffleSites(rate, rogue, stable-rogues)`, the alignment, then the rogue names
+    let o ← parseOpts [("-r", "--rate")] ["--stable-rogues"] ["--seed", "--rate", "--rogue", "--stable-rogues", "--rogue-file"] fl
+    let s ← seedOf o
+    let rate ← parseSDec (← optOr o "sitesCmd" "rate")
+    let rogue ← parseSDec (← optOr o "sitesCmd" "rogue")
+    let stable := (← optOr o "sitesCmd" "stable-rogues") == "true"
+    let rf ← optOr o "sitesCmd" "rogue-file"
+    if rate < 0 || rate > 1 || rogue < 0 || rogue > 1 then pure "rc=1 out=" else
+    let nbSites := fracOf rate L
+    let nbRogueSites := (rate * (1.0 - rate) * Float.ofNat L).floor.toUInt64.toNat
+    if nbRogueSites + nbSites > L then pure "rc=1 out=" else
+    let r := runCmd (shuffleSites nbSites nbRogueSites (fracOf rogue n) stable rows) s 0
+    pure ("rc=0 out=" ++ fasta r.1 ++ (← namesTo rf r.2))
+  | "shuffle" :: "swap" :: fl => do
+    -- cmd/swap.go: per alignment `Swap(rate, pos)`; `pos` outside [0,1] (default -1) = a random position per pair
+    let o ← parseOpts [("-r", "--rate")] [] ["--seed", "--rate", "--pos"] fl
+    let s ← seedOf o
+    let rate ← parseSDec (← optOr o "swapCmd" "rate")
+    let pos ← parseSDec (← optOr o "swapCmd" "pos")
+    if rate < 0 || rate > 1 then pure "rc=1 out=" else
+    let fixed : Option Nat := if pos < 0 || pos > 1 then none else some (Float.ofNat L * pos).floor.toUInt64.toNat
+    pure ("rc=0 out=" ++ fasta (runCmd (swapRows (fracOf rate n) L fixed rows) s 0))
+  | "shuffle" :: "recomb" :: fl => do
+    -- cmd/recomb.go: per alignment `Recombine(prop-seq, prop-length, swap)`
+    let o ← parseOpts [("-n", "--prop-seq"), ("-l", "--prop-length")] ["--swap"] ["--seed", "--prop-seq", "--prop-length", "--swap"] fl
+    let s ← seedOf o
+    let prop ← parseSDec (← optOr o "recombCmd" "prop-seq")
+    let lp ← parseSDec (← optOr o "recombCmd" "prop-length")
+    let sw := (← optOr o "recombCmd" "swap") == "true"
+    if prop < 0 || prop > 0.5 || lp < 0 || lp > 1 then pure "rc=1 out=" else
+    pure ("rc=0 out=" ++ fasta (runCmd (recombine (fracOf prop n) (fracOf lp L) L sw rows) s 0))
+  | "shuffle" :: "rogue" :: fl => do
+    -- cmd/rogue.go: per alignment `SimulateRogue(prop-seq, length)`, the alignment, then the rogue names; arguments
+    -- outside [0,1]: nothing is drawn, nothing changes, no name
+    let o ← parseOpts [("-n", "--prop-seq"), ("-l", "--length")] [] ["--seed", "--prop-seq", "--length", "--rogue-file"] fl
+    let s ← seedOf o
+    let prop ← parseSDec (← optOr o "rogueCmd" "prop-seq")
+    let pl ← parseSDec (← optOr o "rogueCmd" "length")
+    let rf ← optOr o "rogueCmd" "rogue-file"
+    if prop < 0 || prop > 1 || pl < 0 || pl > 1 then pure ("rc=0 out=" ++ fasta rows ++ (← namesTo rf [])) else
+    let prop := if pl == 0 then 0 else prop
+    let r := runCmd (simulateRogue (fracOf prop n) (fracOf pl L) L rows) s 0
+    pure ("rc=0 out=" ++ fasta r.1 ++ (← namesTo rf r.2.1))
+  | "mutate" :: "gaps" :: fl => do
+    -- cmd/addgaps.go: per alignment `AddGaps(rate, prop-seq)`; `--rate` is the flag of the parent command `mutate`
+    let o ← parseOpts [("-r", "--rate"), ("-n", "--prop-seq")] [] ["--seed", "--rate", "--prop-seq"] fl
+    let s ← seedOf o
+    let lp ← parseSDec (← optOr o "mutateCmd" "rate")
+    let p ← parseSDec (← optOr o "addgapsCmd" "prop-seq")
+    if p < 0 || p > 1 || lp < 0 || lp > 1 then pure ("rc=0 out=" ++ fasta rows) else
+    pure ("rc=0 out=" ++ fasta (runCmd (addGaps (fracOf p n) (fracOf lp L) L rows) s 0))
+  | _ => none
+
+/-- `phylip.WriteAlignment(al, false, false, false)`, newline as `|` -/
+def phylip (r : Rows) : String :=
+  (stringOfBytes (Fmt.Phylip.write false false false (r.map fun x => (bytesOfString x.1, x.2)))).replace "\n" "|"
+
+/-- `parseCountFile` of cmd/rarefy.go on the wire form of a file (`|` newline, `~` tab): a map, a later line
+replaces an earlier one of the same name; `none` = error (a line without exactly two columns, a count that is
+not an integer) -/
+def parseCounts (content : String) : Option (List (String × Int)) := do
+  let ls := content.splitOn "|"
+  let ls := if ls.getLast? == some "" then ls.dropLast else ls
+  let kv ← ls.mapM fun l =>
+    match l.splitOn "~" with
+    | [k, v] => (parseInt? v).map fun x => (k, x)
+    | _ => none
+  pure (kv.foldl (fun acc e => acc.filter (fun a => a.1 != e.1) ++ [e]) [])
+
+def filesOf (files : String) : List (String × String) :=
+  if files == "_" then [] else (files.splitOn ";;").filterMap fun f =>
+    match f.splitOn "=" with
+    | n :: rest => some (n, "=".intercalate rest)
+    | _ => none
+
+/-- seeded commands that read or write further files (`cli_libf <stdin> <files> <argv…>`) -/
+def seededFiles (rows : Rows) (files : List (String × String)) (argv : List String) : Option String :=
+  let L : Nat := Spec.width rows
+  let bad := "rc=1 out= files="
+  match argv with
+  | "sample" :: "rarefy" :: fl => do
+    -- cmd/rarefy.go: the counts are read first; per alignment `replicates` calls of `Rarefy(nb-seq, counts)` on the
+    -- one stream, each written at once; more than one replicate switches the output to Phylip
+    let o ← parseOpts [("-n", "--nb-seq"), ("-c", "--counts"), ("-r", "--replicates")] [] ["--seed", "--nb-seq", "--counts", "--replicates"] fl
+    let s ← seedOf o
+    let nb ← parseInt? (← optOr o "rarefyCmd" "nb-seq")
+    let m ← parseInt? (← optOr o "rarefyCmd" "replicates")
+    let cf ← files.find? (·.1 == (← optOr o "rarefyCmd" "counts"))
+    match parseCounts cf.2 with
+    | none => pure bad
+    | some cs =>
+      if m ≤ 0 then pure "rc=0 out= files=" else
+      let sorted := cs.mergeSort fun a b => decide (a.1 ≤ b.1)
+      if sorted.any (fun c => c.2 ≤ 0) then pure bad else
+      -- a negative `nb-seq` passes the test `nb >= total` and draws nothing: as 0, except that no count at all is accepted
+      let empties := List.replicate m.toNat ([] : Rows)
+      if nb < 0 && sorted.isEmpty then pure ("rc=0 out=" ++ String.join (empties.map (if m > 1 then phylip else fasta)) ++ " files=") else
+      match rarefy nb.toNat (sorted.map fun c => (c.1, c.2.toNat)) rows with
+      | none => pure bad
+      | some p =>
+        let outs := runCmd (replM m.toNat p) s 0
+        pure ("rc=0 out=" ++ String.join (outs.map (if m > 1 then phylip else fasta)) ++ " files=")
+  | "build" :: "seqboot" :: fl => do
+    -- cmd/bootstrap.go (no partition, no tar / gz): replicate `i` = `BuildBootstrap(frac)` then, with `-S`,
+    -- `ShuffleSequences` of the replicate, written to `<prefix><i>.fa`; nothing on stdout
+    let o ← parseOpts [("-n", "--nboot"), ("-f", "--frac"), ("-o", "--out-prefix"), ("-S", "--shuf-order")] ["--shuf-order"]
+      ["--seed", "--nboot", "--frac", "--out-prefix", "--shuf-order"] fl
+    let s ← seedOf o
+    let nboot ← parseInt? (← optOr o "seqbootCmd" "nboot")
+    let f ← parseSDec (← optOr o "seqbootCmd" "frac")
+    let prefix_ ← optOr o "seqbootCmd" "out-prefix"
+    let shuf := (← optOr o "seqbootCmd" "shuf-order") == "true"
+    if prefix_ == "none" then pure bad else
+    let f := if f ≤ 0 || f > 1 then 1.0 else f
+    let one : RProg Rows := RProg.bind (bootstrap (fracOf f L) L rows) fun b => if shuf then shuffleSequences b else .pure b
+    let outs := runCmd (replM nboot.toNat one) s 0
+    let named := (List.range outs.length).zip outs |>.map fun (i, b) => (prefix_ ++ toString i ++ ".fa", fasta b)
+    let named := named.mergeSort fun a b => decide (a.1 ≤ b.1)
+    pure ("rc=0 out= files=" ++ ";;".intercalate (named.map fun x => x.1 ++ "=" ++ x.2))
   | _ => none
 
 def sameVerdict (impl what : String) : Ans :=
@@ -76,10 +244,14 @@ def handle : Handler := fun op args impl =>
       | ["mutate", "snvs", "-r", r, "--seed", s] => do
         let s ← parseInt? s; let r ← parseDec r
         pure ("rc=0 out=" ++ fasta (runCmd (mutate r Gen.stdnucleotides rows) s 0))
-      | _ => none
+      | _ => seededFlags rows argv
     match out with
     | some m => some ⟨m, verdictOf (impl == m) "seeded-command-bytes"⟩
     | none => some ⟨"bad-args", "na"⟩
+  | "cli_libf", stdin :: files :: argv =>
+    -- only the seeded commands; any other `cli_libf` case is left to the handlers of the other properties
+    (seededFiles (parseFasta (stdin.splitOn "|")) (filesOf files) argv).map fun m =>
+      ⟨m, verdictOf (impl == m) "seeded-command-bytes"⟩
   | _, _ => none
 
 end Gv.Oracle.DetOps
